@@ -2,6 +2,8 @@ import Capella.Lemmas.Reads
 import Capella.Lemmas.Factories
 import Capella.Gen.Effects
 import Capella.Lemmas.RenderCache
+import Capella.Lemmas.Introspect
+import Capella.Gen.Introspect
 
 /-!
 # C11 — reading and rendering never change the model
@@ -237,6 +239,64 @@ theorem render_cache_transparent_partial {Pic Err : Type} (create : Params → E
     (run .coded create errImg Cache.init ops).map (Option.map (·.2)) = ops.map (spec create) :=
   run_coded_single create errImg p0 _ (by simp [InvCoded, Cache.init]) ops h
 
+/-! ## Introspection never crashes: the representation loops (`__repr__`, `__html__`, `_short_html_` of model objects and
+element lists)
+
+`getattr` is inside `try … except Exception: continue`; the formatting of the value that was read is not.  The sites
+(where a value is handed to a formatter, under which tests) and the value classes (which representation methods they
+define, which of them raise on an instance over an empty element) are generated from the live code
+(`harness/gen_introspect.py` → `Capella/Gen/Introspect.lean`). -/
+
+open Capella.Introspect in
+/-- Attribute reads that fail — with `AttributeError` ("No specification found") or with anything else — never matter:
+the loop produces what it produces on the attributes that could be read. -/
+theorem repr_loop_skips_failed_reads (o : Bool) (sites : List Site) (attrs : List Got) :
+    loop o sites attrs = loop o sites (attrs.filter (fun g => match g with | .value _ => true | _ => false)) :=
+  loop_filter o sites attrs
+
+open Capella.Introspect in
+/-- A representation loop completes on every table of attribute outcomes **iff** every formatter it can reach completes
+on every value: there is no other way for `repr()` / `_repr_html_()` to raise, and no formatter is harmless. -/
+theorem repr_loop_total_iff (o : Bool) (sites : List Site) :
+    (∀ attrs, loop o sites attrs = true) ↔ ∀ v : Val, sites.all (fun s => s.runOn o v) = true := by
+  constructor
+  · intro h v
+    have := (loop_true_iff o sites [.value v]).1 (h [.value v]) v (by simp)
+    exact this
+  · intro h attrs
+    exact (loop_true_iff o sites attrs).2 (fun v _ => h v)
+
+open Capella.Introspect in
+/-- Each loop (`fn` = `ModelElement.__html__`, …) as it is in the live code completes on every object whose attribute values belong to the generated value
+classes and raise at most where the table says the class is partial (the hypothesis the monitor of
+`harness/c11_states.py` checks on unusual states): for every such table of attribute outcomes, whatever the unknown tests
+evaluate to.  Rests on the generated obligation `sites_total`. -/
+theorem live_repr_loops_total (fn : List Char) (o : Bool) (attrs : List Got)
+    (h : ∀ v, Got.value v ∈ attrs → v.cls ∈ Capella.Gen.Introspect.classes ∧ v.conforms ∧
+      ∀ s ∈ sitesOf Capella.Gen.Introspect.sites fn, s.attrOk v.cls = true) :
+    loop o (sitesOf Capella.Gen.Introspect.sites fn) attrs = true := by
+  rw [loop_true_iff]
+  intro v hv
+  obtain ⟨hcl, hcf, hat⟩ := h v hv
+  rw [List.all_eq_true]
+  intro s hs0
+  have hs : s ∈ Capella.Gen.Introspect.sites := (List.mem_filter.1 hs0).1
+  have ht := Capella.Gen.Introspect.sites_total
+  unfold tableOk at ht
+  rw [List.all_eq_true] at ht
+  have h1 := ht s hs
+  rw [List.all_eq_true] at h1
+  exact runOn_of_siteOk o s v hcf (hat s hs0) (h1 v.cls hcl)
+
+open Capella.Introspect in
+/-- A loop that lets values with an `__html__` of their own render themselves through `escape(value)` outside the guard
+(the tempting one-line improvement of `ModelElement.__html__`) is **not** total: a specification with no body is a
+value whose `__html__` raises.  The table obligation is false for it, and a concrete object makes the loop raise. -/
+theorem escape_any_value_not_total :
+    tableOk escapeAnySites [specClass] = false ∧
+    ∃ attrs, loop false escapeAnySites attrs = false := by
+  refine ⟨by decide, [.attrError, .value ⟨specClass, fun m => m == mStr || m == mHtml⟩], by decide⟩
+
 -- Non-vacuity: the statements say something on concrete inputs.
 example : (render .coded witnessState "d".toList).2 = [⟨"e1".toList, "satisfies".toList, false⟩] := by decide
 example : (render .repaired witnessState "d".toList).2 = [⟨"e1".toList, "satisfies".toList, false⟩] := by decide
@@ -259,6 +319,11 @@ open Capella.RenderCache in
 example : (run .coded (fun p => (.ok p : Except Unit Params)) (fun _ => []) Cache.init
     [.render [], .render [], .invalidate, .render []]).map (Option.map (·.1)) = [some true, some false, none, some true] := by decide
 example : Capella.Gen.Effects.table.dispatch.length ≥ 50 := by decide
+open Capella.Introspect in
+example : loop false (sitesOf Capella.Gen.Introspect.sites "ModelElement.__html__".toList)
+    [.attrError, .value ⟨specClass, fun m => m == mStr || m == mHtml⟩, .otherError] = true := by decide
+open Capella.Introspect in
+example : Capella.Gen.Introspect.sites.length ≥ 8 ∧ Capella.Gen.Introspect.classes.any (fun c => !c.partialOn.isEmpty) = true := by decide
 example : Capella.Gen.Effects.reachable.length ≥ 60 := by decide
 
 end Capella.Props.C11
